@@ -1,4 +1,6 @@
 import Driver.Index
+import OrdModel.Index.Projection
+import OrdModel.Generated.FirstIndexHeight
 /-
 Driver of work stream P6 "flags" (property C15) on signet (non-zero first inscription height).
 The engine `eng_flagsx` compares real indexes opened with different optional-index flags on the
@@ -11,8 +13,17 @@ same chain; the comparisons are evaluated here on the implementation's own outpu
 Every other line (cfg / block / tx / endblock / dump …) goes to the index model, which is fed
 the sparse chain and answers with its own sections: the 000 index (values of spent prefix
 outputs fetched from the node) against local tracking.
+
+`endblock` applies the block *as the configuration sees it* (`applyBlockTracked`): a block below
+`first_index_height` reaches the real index header-only, so the rune updater sees none of its
+transactions; its output values are tracked locally (that is the specification of the node-fetch
+path).  `first_index_height` follows the source: `Generated.runesLowerFirstIndexHeight` is
+re-extracted from `Index::open` on every run (tools/extractors/first_index_height.py) — false
+on the unchanged code (the prefix rune of finding S2 is invisible to the 000 index, and to this
+model), true with notes/fix-C15-runes-first-index-height.diff applied (both see it).
 -/
 namespace Driver.Flagsx
+open Ord Ord.Index
 
 def handle (_s : Driver.Index.S) : List String → Option String
   | "flagsx.scenario" :: _ => some "ok"
@@ -21,5 +32,23 @@ def handle (_s : Driver.Index.S) : List String → Option String
   | "flagsx.oracle.lostsat" :: a :: b :: _ => some (toString (a == b))
   | "flagsx.oracle.true" :: v :: _ => some (toString (v == "1"))
   | _ => none
+
+/-- the source's `first_index_height` rule -/
+def fixed : Bool := Ord.Index.Generated.runesLowerFirstIndexHeight
+
+/-- `Driver.Index.step`, except that `endblock` folds `applyBlockTracked fixed` instead of
+`applyBlock` (same bookkeeping of the pending block, the events and a failed block) -/
+def step (s : Driver.Index.S) (ts : List String) : Driver.Index.S × String :=
+  match handle s ts with
+  | some out => (s, out)
+  | none =>
+    match ts, s.pending with
+    | ["endblock"], some b =>
+      let blk := { b with txs := s.txs.reverse }
+      match applyBlockTracked fixed s.cfg s.st blk with
+      | .ok (st', evs) => ({ s with st := st', pending := none, txs := [], events := s.events ++ evs }, "ok")
+      | .panic site => ({ s with pending := none, txs := [], events := [], dead := some site }, s!"panic {site}")
+      | .err e => ({ s with pending := none, txs := [], events := [], dead := some e }, s!"err {e}")
+    | _, _ => Driver.Index.step s ts
 
 end Driver.Flagsx
